@@ -563,11 +563,13 @@ Proof.
     - rewrite Ht. discriminate. }
   pose proof (inv_notify_subs c e s1 I1) as Ix.
   destruct (notify_subs_fields s1) as (E1 & E2 & E3 & E4 & E5 & E6 & E7 & E8 & E9 & E10 & E11 & E12 & E13 & E14 & E15 & E16 & E17 & E18).
-  set (x := notify_subs s1) in *.
+  assert (Hv1 : value s1 = Some (f_res fu)) by reflexivity.
+  assert (Hc1 : cap s1 = cap s) by reflexivity.
+  set (x := notify_subs s1) in *. clearbody x. clearbody s1.
   destruct Ix. constructor; sf; auto.
   - discriminate.
   - discriminate.
-  - intros _ _ _. rewrite E9, E17. unfold s1. sf. rewrite Hres. reflexivity.
+  - intros _ _ _. rewrite E9, E17, Hv1, Hc1, Hres. reflexivity.
 Qed.
 
 Lemma wk_after_store s r : WK (set_woken true (set_task TIdle (store r s))).
@@ -585,7 +587,7 @@ Lemma inv_start_create c s :
 Proof.
   intros Hprov Hlen Hd Hinit. unfold create_fut. cbn [fst snd].
   destruct (read_all_spec c s Hlen) as (R & Hseen).
-  set (r := read_all c s) in *.
+  set (r := read_all c s) in *. clearbody r.
   destruct R as [A _ _ Hdr].
   assert (Hcr : curvals c r = curvals c s) by (apply agree_curvals; exact A).
   set (fu := mkFut (fetchf c (inputs c r)) false true).
